@@ -52,6 +52,7 @@ Definition std_handlers : list hspec := [
   mk "PanicCustom" [] false ONone (fun _ => Panic (q "{%!s(int=3)}"));
   mk "PanicAbort" [] false ONone (fun _ => Panic (q "net/http: abort Handler"));
   mk "PanicOpaque" [] false ONone (fun _ => Panic (q "{%!s(chan int=<nil>) reindex}"));
+  mk "PanicCoded" [] false ONone (fun _ => Panic (q "coded"));
   mk "Ctx" [TInt] false OVal (fun ps => Ret (zj (as_int (arg 0 TInt ps) + 1)));
   mk "Chan" [] false OChan (fun _ => Ret JNull);
   mk "CodeErr" [TInt] false OErr
